@@ -47,6 +47,7 @@ type SpecEnv struct {
 	oldVars map[string]Val // values of names inside old(...): parameters at entry
 	math   bool
 	allocOld Term
+	loopHeads map[int]*State
 	where  string
 	depth  int
 }
@@ -74,6 +75,53 @@ func (env *SpecEnv) Bool(e ast.Expr) Term {
 		env.errf("expression %s is not boolean", exprString(e))
 	}
 	return fv.L[0]
+}
+
+// BoolParts translates a clause into its conjuncts, looking through &&,
+// implies(c, ...) and calls of non-opaque boolean spec functions, so that each
+// conjunct becomes a separate (much easier) obligation.
+func (env *SpecEnv) BoolParts(e ast.Expr) []Term {
+	switch x := e.(type) {
+	case *ast.ParenExpr:
+		return env.BoolParts(x.X)
+	case *ast.BinaryExpr:
+		if x.Op == token.LAND {
+			return append(env.BoolParts(x.X), env.BoolParts(x.Y)...)
+		}
+	case *ast.CallExpr:
+		id, ok := x.Fun.(*ast.Ident)
+		if !ok {
+			break
+		}
+		if id.Name == "implies" && len(x.Args) == 2 {
+			c := env.Bool(x.Args[0])
+			var out []Term
+			for _, p := range env.BoolParts(x.Args[1]) {
+				out = append(out, mkImplies(c, p))
+			}
+			return out
+		}
+		if sf, ok := env.lookupSpec(id.Name); ok && sf.Body != nil && !sf.Opaque && len(x.Args) == len(sf.Params) {
+			if rt := env.lookupType(sf.Result); rt != nil && isBool(rt) {
+				ch := &SpecEnv{vc: env.vc, fn: env.fn, cf: env.cf, pkg: env.pkg, vars: map[string]Val{}, cur: env.cur, old: env.old,
+					oldVars: env.oldVars, allocOld: env.allocOld, where: env.where + " in spec " + sf.Name, depth: env.depth + 1}
+				if ch.depth > 50 {
+					break
+				}
+				for i, a := range x.Args {
+					pt := env.lookupType(sf.Params[i].Type)
+					if pt == nil {
+						env.errf("spec %s: unknown parameter type", sf.Name)
+					}
+					v := env.noMath(func() Val { return env.tr(a) })
+					v = env.coerce(v, pt)
+					ch.vars[sf.Params[i].Name] = v
+				}
+				return ch.BoolParts(sf.Body)
+			}
+		}
+	}
+	return []Term{env.Bool(e)}
 }
 
 func exprString(e ast.Expr) string { return types.ExprString(e) }
@@ -867,6 +915,19 @@ func (env *SpecEnv) call(x *ast.CallExpr) Val {
 			// inside old(), locals are read at entry: parameters only
 			ch.locals = nil
 			return ch.tr(x.Args[0])
+		case "athead":
+			// athead(k, e): e evaluated in the state at the head of loop k (current iteration)
+			cv, ok := env.tr(x.Args[0]).(*CV)
+			if !ok || cv.V == nil {
+				env.errf("athead: first argument must be a loop ordinal")
+			}
+			hs := env.loopHeads[int(cv.V.Int64())]
+			if hs == nil {
+				env.errf("athead(%d, ...): not inside that loop", cv.V.Int64())
+			}
+			ch := env.child()
+			ch.cur = hs
+			return ch.tr(x.Args[1])
 		case "forall", "exists":
 			return env.quant(id.Name, x)
 		case "implies":
@@ -1105,6 +1166,9 @@ func (env *SpecEnv) specCall(sf *SpecFunc, x *ast.CallExpr) Val {
 		// uninterpreted ghost function (possibly heap-dependent: ghostfield)
 		return env.ghostApp(sf, args, rt)
 	}
+	if sf.Opaque {
+		return env.opaqueCall(sf, args, rt)
+	}
 	ch := &SpecEnv{vc: env.vc, fn: env.fn, cf: env.cf, pkg: env.pkg, vars: map[string]Val{}, cur: env.cur, old: env.old,
 		oldVars: env.oldVars, allocOld: env.allocOld, where: env.where + " in spec " + sf.Name, depth: env.depth}
 	for i, p := range sf.Params {
@@ -1152,4 +1216,94 @@ func (env *SpecEnv) ghostApp(sf *SpecFunc, args []Val, rt types.Type) Val {
 		ts = append(ts, a.(*FV).L[0])
 	}
 	return env.widen(scalar(rt, app(rs, name, ts...)))
+}
+
+
+// opaqueCall applies an `ospec` function: an uninterpreted SMT function of
+// the heap components it reads and its parameters, with one triggered
+// definitional axiom. Quantified contracts over such functions instantiate by
+// matching on the application, not on array-index arithmetic.
+func (env *SpecEnv) opaqueCall(sf *SpecFunc, args []Val, rt types.Type) Val {
+	vc := env.vc
+	enc := env.enc()
+	if vc.opaque == nil {
+		vc.opaque = map[string]*opaqueInfo{}
+	}
+	rs := enc.scalarSort(rt)
+	info := vc.opaque[sf.Name]
+	if info == nil {
+		sym := &State{Locals: map[*ssa.Alloc]Val{}, Heap: map[string]Term{}, Alloc: Term{"alloc?", SInt}, Sym: &symHeap{terms: map[string]Term{}}}
+		ch := &SpecEnv{vc: vc, fn: env.fn, cf: env.cf, pkg: env.pkg, vars: map[string]Val{}, cur: sym, where: env.where + " in ospec " + sf.Name, depth: env.depth}
+		var binders []string
+		var appArgs []string
+		for i, p := range sf.Params {
+			pt := env.lookupType(p.Type)
+			fv := &FV{T: pt}
+			if isMath(pt) {
+				fv.L = []Term{{fmt.Sprintf("p?%d_0", i), enc.scalarSort(pt)}}
+			} else {
+				for j, l := range enc.Leaves(pt) {
+					fv.L = append(fv.L, Term{fmt.Sprintf("p?%d_%d", i, j), l.Sort})
+				}
+			}
+			for _, t := range fv.L {
+				binders = append(binders, fmt.Sprintf("(%s %s)", t.S, t.Sort))
+				appArgs = append(appArgs, t.S)
+			}
+			ch.vars[p.Name] = fv
+		}
+		body := ch.tr(sf.Body)
+		body = ch.coerce(body, rt)
+		bf, ok := body.(*FV)
+		if !ok || len(bf.L) != 1 {
+			env.errf("ospec %s must have a scalar body", sf.Name)
+		}
+		if isMath(rt) && !isMath(bf.T) {
+			ch.math = true
+			bf = ch.widen(bf).(*FV)
+		}
+		bt := bf.L[0]
+		if bt.Sort != rs {
+			env.errf("ospec %s: body sort %s does not match result sort %s", sf.Name, bt.Sort, rs)
+		}
+		info = &opaqueInfo{name: "spec_" + sanitize(sf.Name), keys: sym.Sym.keys}
+		var hb, ha, hs []string
+		for _, k := range info.keys {
+			t := sym.Sym.terms[k]
+			info.sorts = append(info.sorts, t.Sort)
+			hb = append(hb, fmt.Sprintf("(%s %s)", t.S, t.Sort))
+			ha = append(ha, t.S)
+			hs = append(hs, string(t.Sort))
+		}
+		var ps []string
+		for _, a := range args {
+			for _, t := range a.(*FV).L {
+				ps = append(ps, string(t.Sort))
+			}
+		}
+		vc.extraDecls = append(vc.extraDecls, fmt.Sprintf("(declare-fun %s (%s) %s)", info.name, strings.Join(append(hs, ps...), " "), rs))
+		all := append(hb, binders...)
+		appl := "(" + info.name + " " + strings.Join(append(ha, appArgs...), " ") + ")"
+		if len(all) == 0 {
+			vc.extraDecls = append(vc.extraDecls, fmt.Sprintf("(assert (= (%s) %s))", info.name, bt.S))
+		} else {
+			vc.extraDecls = append(vc.extraDecls, fmt.Sprintf("(assert (forall (%s) (! (= %s %s) :pattern (%s))))", strings.Join(all, " "), appl, bt.S, appl))
+		}
+		vc.opaque[sf.Name] = info
+	}
+	var ts []Term
+	for i, k := range info.keys {
+		ts = append(ts, vc.heapGet(env.cur, k, info.sorts[i]))
+	}
+	for _, a := range args {
+		fv, ok := a.(*FV)
+		if !ok {
+			env.errf("ospec %s: aggregate argument", sf.Name)
+		}
+		ts = append(ts, fv.L...)
+	}
+	if len(ts) == 0 {
+		return env.widen(scalar(rt, Term{"(" + info.name + ")", rs}))
+	}
+	return env.widen(scalar(rt, app(rs, info.name, ts...)))
 }
